@@ -246,6 +246,78 @@ def _after_check(w, triggers, expect_effects=True):
     return ""
 
 
+class Tracked:
+    """A host object whose end of life is observable."""
+
+    def __init__(self):
+        self.payload = [1, 2, 3]
+
+
+def _agent_containers(w):
+    """Sizes of every mutable container held at class / module level in deep.* and on the handler: the places where
+    something can outlive a trace event."""
+    import sys
+    import collections
+    sizes = {}
+    for name, mod in list(sys.modules.items()):
+        if not (name == "deep" or name.startswith("deep.")) or mod is None:
+            continue
+        for attr, val in list(vars(mod).items()):
+            if isinstance(val, (list, dict, set, collections.deque)) and not attr.startswith("__"):
+                sizes["%s.%s" % (name, attr)] = len(val)
+            if isinstance(val, type) and getattr(val, "__module__", "") == name:
+                for a2, v2 in list(vars(val).items()):
+                    if isinstance(v2, (list, dict, set, collections.deque)):
+                        sizes["%s.%s.%s" % (name, attr, a2)] = len(v2)
+    for a2, v2 in list(vars(w.handler).items()):
+        if isinstance(v2, (list, dict, set, collections.deque)):
+            sizes["handler.%s" % a2] = len(v2)
+    return sizes
+
+
+def lifetime(cfg: int, n: int) -> str:
+    """
+    The agent keeps nothing of the application between trace events: after the traced function has returned, no class-,
+    module- or handler-level container of the agent has grown, however many times the script ran (so application
+    objects seen in a paused frame are not kept alive by the agent). In the concrete replay a weakly referenced host
+    object must also really die.
+    PRE: 0 <= cfg <= 9 and 1 <= n <= 3
+    POST: _ == ""
+    """
+    world.begin_path()
+    cfg, n = world.realize(cfg), world.realize(n)
+    w = _world(0)
+    try:
+        triggers, script = make_config(cfg)
+        w.install(triggers)
+        base = None
+        for i in range(n):
+            obj = Tracked()
+            f_locals = {"x": 1, "y": Z(), "boom": (lambda: 1), "tracked": obj}
+            r = _run_script(w, script, f_locals, "r", ValueError("e"))
+            if r:
+                return r
+            del obj, f_locals
+            sizes = _agent_containers(w)
+            if base is None:
+                base = sizes
+            elif sizes != base:
+                world.reached()
+                grown = sorted(k for k in sizes if sizes[k] != base.get(k))
+                return "C01:agent-state-accumulates-between-events:" + (grown[0] if grown else "?")
+        world.reached()
+        if n == 1:
+            # one run cannot show growth: compare with a second, identical run
+            obj = Tracked()
+            _run_script(w, script, {"x": 1, "y": Z(), "boom": (lambda: 1), "tracked": obj}, "r", ValueError("e"))
+            del obj
+            if _agent_containers(w) != base:
+                return "C01:agent-state-accumulates-between-events"
+        return ""
+    finally:
+        _restore(w)
+
+
 def hostile(cfg: int, vk: int, ek: int, where: int, src: int) -> str:
     """
     Hostile application values (dunder methods raising Exception / BaseException subclasses, objects without __dict__,
@@ -379,6 +451,8 @@ def _mut_returns_none_on_error():
 MUTANTS = {"drop_action_guard": _mut_drop_action_guard, "returns_none_on_error": _mut_returns_none_on_error}
 
 CONDITIONS = [
+    dict(fn="lifetime", cubes=["cfg == %d" % c for c in range(10)], twins=["reach"],
+         bounds="10 configurations x 1-3 runs of the event script; a weakly referenced host object in the locals must die once the application drops it"),
     dict(fn="hostile", cubes={"quick": ["cfg == %d and where == %d and src == 0 and vk in (0, 8, 12, 16, 17, 19, 20, 22, 29, 31, 33)" % (c, wh) for c in range(10) for wh in range(3)] +
                                        ["cfg == %d and src == %d and vk == 0 and where == 0" % (c, s) for c in (6, 7) for s in (1, 2)],
                               "thorough": ["cfg == %d and where == %d and src == 0 and vk %s" % (c, wh, r) for c in range(10) for wh in range(3) for r in ("<= 10", "in (11,12,13,14,15,16)", "in (17,18,19)", "in (20,21,22)", ">= 23")] +
